@@ -339,14 +339,21 @@ def run(chk):
     chk.oracle('cleavage_sites_vs_rule', site_cases, o_sites, nontrivial_fn=lambda c: len(c[0]) >= 2)
 
     # digest end to end against the spec, return types, sort_output, partial digestion, sequential
-    def o_digest(c):
+    def digest_spec_line(c):
         s, rs, mc, semi, lo, hi, comp = c
-        n = len(s)
         sites = []
         for r in rs:
             sites += ref_sites(s, r)
-        line = f'spec\t{n}\t{ilist(sites)}\t{mc}\t{opt(lo)}\t{opt(hi)}\t{int(semi)}'
-        exp = set(tuple(int(x) for x in t.split(':')) for t in chk.driver(DRV, [line])[0].split(';') if t)
+        return f'spec\t{len(s)}\t{ilist(sites)}\t{mc}\t{opt(lo)}\t{opt(hi)}\t{int(semi)}'
+
+    dsel = dig if chk.broken() else dig[:: (4 if tier == 'quick' else 2)]
+    # one driver process for all cases (a process per case dominated the thorough tier's wall time)
+    dspec = dict(zip(map(repr, dsel), chk.driver(DRV, [digest_spec_line(c) for c in dsel])))
+
+    def o_digest(c):
+        s, rs, mc, semi, lo, hi, comp = c
+        n = len(s)
+        exp = set(tuple(int(x) for x in t.split(':')) for t in dspec[repr(c)].split(';') if t)
         if not comp:
             exp.add((0, n, 0))
         exp = sorted(exp)
@@ -373,7 +380,6 @@ def run(chk):
             return 'digest_from_config differs from digest'
         return None
 
-    dsel = dig if chk.broken() else dig[:: (4 if tier == 'quick' else 2)]
     chk.oracle('digest_vs_spec', dsel, o_digest, nontrivial_fn=lambda c: len(c[0]) >= 3,
                key_fn=lambda c: repr(c))
 
@@ -392,6 +398,33 @@ def run(chk):
         k = rng.choice([1, 2, 2, 3])
         seq_cases.append((s, tuple(rng.sample(enz_rules, k)), rng.choice([None, 1, 2, 3]), rng.choice([None, 2, 4, 12])))
     chk.oracle('sequential_vs_simultaneous', seq_cases, o_seq, nontrivial_fn=lambda c: len(c[0]) >= 3)
+
+    # the theorem sequential_eq_simultaneous_text on the real code: whenever its (decidable) hypotheses hold for an input -
+    # evaluated by the Lean predicates through the driver - sequential and simultaneous digest must return the same span set
+    # and the sequential one no duplicates; conversely a difference must come with a false hypothesis
+    plain = [c for c in sq if all(mc == 0 and not semi and comp for _, mc, semi, comp in c[1])]
+    hyp_lines = ['seq_hyp\t%s\t%s' % (c[0], '|'.join('&'.join(rule_wire(r) for r in rs) + f'@{mc}@{int(semi)}@{int(comp)}'
+                                                    for rs, mc, semi, comp in c[1])) for c in plain]
+    hyp_map = dict(zip(map(repr, plain), chk.driver(DRV, hyp_lines)))
+
+    def o_thm(c):
+        s, cfgs, lo, hi = c
+        hyp = hyp_map[repr(c)]
+        if hyp in ('bad-op', ''):
+            return f'driver could not evaluate the hypotheses: {hyp!r}'
+        ok = hyp == '1 1 1 1'
+        chk.count('seq_theorem_hypotheses_hold' if ok else 'seq_theorem_hypotheses_fail:' + hyp)
+        ec = [digestion.EnzymeConfig(list(rs), 0, False, True) for rs, _, _, _ in cfgs]
+        seq = list(digestion.sequential_digest(s, ec, lo, hi, 'span'))
+        sim = list(digestion.digest(s, [r for rs, _, _, _ in cfgs for r in rs], 0, False, lo, hi, True, 'span', True))
+        if ok:
+            if len(set(seq)) != len(seq):
+                return f'hypotheses of sequential_eq_simultaneous_text hold but sequential has duplicates: {seq}'
+            if sorted(seq) != sim:
+                return f'hypotheses of sequential_eq_simultaneous_text hold but sequential {sorted(seq)} != simultaneous {sim}'
+        return None
+
+    chk.oracle('sequential_theorem_instances', plain, o_thm, nontrivial_fn=lambda c: len(c[0]) >= 3 and len(c[1]) >= 2)
 
     return chk.finish(classify)
 
